@@ -176,6 +176,7 @@ def dump(system: model.System) -> Dict[str, Dict[str, Any]]:
             'kind': obj.kind.name if obj.kind is not None else None,
             'docstring': obj.docstring,
             'location': name,
+            'parent': ident(obj.parent) if obj.parent is not None else None,
         }
         if isinstance(obj, model.Class):
             rec['bases'] = [ident(b) if b is not None else None for b in obj.baseobjects]
